@@ -5,14 +5,15 @@
 # output and evidence of the mutant run are removed afterwards.
 set -u
 PATCH=$(readlink -f "$1"); PROP=$2; shift 2
+NAME=$(basename "$PATCH"); [ "$NAME" = patch.diff ] && NAME=$(basename "$(dirname "$PATCH")")
 D=$(mktemp -d /dev/shm/oomd-mut-XXXXXX)
 mkdir -p "$D/repo" "$D/out"
 rsync -a --exclude _build --exclude .git /repo/ "$D/repo/"
 if ! patch -s -p1 -d "$D/repo" < "$PATCH"; then echo "PATCH-FAILED $PATCH"; rm -rf "$D"; exit 3; fi
-VERIF_REPO="$D/repo" VERIF_BUILD="$D/build" VERIF_OUT="$D/out" python3 "$(dirname "$0")/../verif.py" check "$PROP" "$@" > "$D/stdout" 2> "$D/stderr"
+VERIF_OBJCACHE=${VERIF_OBJCACHE:-/dev/shm/oomd-objcache} VERIF_REPO="$D/repo" VERIF_BUILD="$D/build" VERIF_OUT="$D/out" python3 "$(dirname "$0")/../verif.py" check "$PROP" "$@" > "$D/stdout" 2> "$D/stderr"
 rc=$?
-if [ $rc -eq 1 ]; then echo "CAUGHT   $(basename $PATCH) by $PROP: $(grep -m1 'clause=' $D/stderr | cut -c1-300)";
-elif [ $rc -eq 0 ]; then echo "SURVIVED $(basename $PATCH) vs $PROP"; tail -2 "$D/stderr";
-else echo "ERROR rc=$rc $(basename $PATCH) vs $PROP"; tail -15 "$D/stderr"; fi
+if [ $rc -eq 1 ]; then echo "CAUGHT   $NAME by $PROP: $(grep -m1 'clause=' $D/stderr | cut -c1-300)";
+elif [ $rc -eq 0 ]; then echo "SURVIVED $NAME vs $PROP"; tail -2 "$D/stderr";
+else echo "ERROR rc=$rc $NAME vs $PROP"; tail -15 "$D/stderr"; fi
 rm -rf "$D"
 exit $rc
